@@ -505,6 +505,9 @@ func (fc *funcContext) ResolveForwardGoto(target *gotoLabelDesc) {
 
 func (fc *funcContext) NewLabel() int {
 	ret := fc.labelId
+	if ret > opMaxArgSbx {
+		raiseCompileError(fc, fc.Proto.LineDefined, "function or expression too complex")
+	}
 	fc.labelId++
 	return ret
 }
@@ -1226,6 +1229,9 @@ func compileExpr(context *funcContext, reg int, expr ast.Expr, ec *expcontext) i
 		childcontext := newFuncContext(context.Proto.SourceName, context)
 		compileFunctionExpr(childcontext, ex, ec)
 		protono := len(context.Proto.FunctionPrototypes)
+		if protono > opMaxArgBx {
+			raiseCompileError(context, sline(ex), "too many functions")
+		}
 		context.Proto.FunctionPrototypes = append(context.Proto.FunctionPrototypes, childcontext.Proto)
 		code.AddABx(OP_CLOSURE, sreg, protono, sline(ex))
 		for _, upvalue := range childcontext.Upvalues.List() {
